@@ -174,21 +174,31 @@ def c07_passes(tier, sc):
             Pass('prod', 'h_fits.prod', 'C07', n(tier, 2600, 40000, sc), env={'VF_RLIMIT_AS_MB': '4096'})]
 
 
+def c07_post(a, res):
+    """coverage-guided pass (libFuzzer): see lib/fuzzpass.py"""
+    from . import fuzzpass
+    fuzzpass.run(a, res, a.bins)
+
+
 PROPS['C07'] = dict(
     level_text='Structure-aware fault injection on file contents: valid small tables are re-encoded by a cfitsio-free encoder and mutated '
                '(ORDERn/NAXISn/BITPIX/EXTNAME edits, consistent and inconsistent resizes, dropped/reordered extensions, non-finite/unsorted knots, bit flips, '
                'truncation, non-spline FITS, random bytes); every reader entry point (C++ memory/disk/constructor, C memory/disk, the two CLI tools) is run '
                'under ASan+UBSan+LSan. A failed read must leave an empty, reusable, destructible object and leak nothing; a successful read must satisfy '
-               'the well-formedness predicates and survive an evaluation/compare/re-serialise battery.',
+               'the well-formedness predicates and survive an evaluation/compare/re-serialise battery. A third, coverage-guided pass runs the same monitor as a '
+               'libFuzzer target (clang, ASan+UBSan) on read_fits_mem with a structure-aware custom mutator working on the decoded HDU list (cards, data sizes, extension order) '
+               'next to the byte mutations of libFuzzer: 8 x 12 000 executions per quick run, 16 x 300 000 in the thorough tier, from a generated seed corpus.',
     level_note=NOTE_COMMON + '; crashes wholly inside libcfitsio would be reported with their own key',
-    technique='fault injection on input bytes + sanitizers (ASan/UBSan/LSan) + well-formedness oracle',
-    targets=[T('h_fits.cpp', 'asan'), T('h_fits.cpp', 'prod'), TOOL_EVAL, TOOL_INSPECT],
+    technique='fault injection on input bytes (structure-aware mutants and coverage-guided libFuzzer pass) + sanitizers (ASan/UBSan/LSan) + well-formedness oracle',
+    targets=[T('h_fits.cpp', 'asan'), T('h_fits.cpp', 'prod'), TOOL_EVAL, TOOL_INSPECT, T('fz_read.cpp', 'fuzz')],
     passes=c07_passes,
+    post=c07_post,
     level='fault_enumeration',
-    rule='case = (valid 1-4-d table, one of 24 mutation kinds with random parameters, one of 5 reader entry points; every third case also both CLI tools); '
+    rule='case = (valid 1-4-d table, one of 28 mutation kinds with random parameters, one of 5 reader entry points; every third case also both CLI tools); '
          'distinct_nontrivial counts distinct mutated byte strings; counters give accepted/rejected per mutation kind',
     assumptions=ASSUME_COMMON,
-    require={'any': {'reads-failed': 500, 'reads-succeeded': 150, 'batteries-run': 100, 'reuse-after-failure-checks': 400, 'tool-runs:photospline-eval': 200}},
+    require={'any': {'reads-failed': 500, 'reads-succeeded': 150, 'batteries-run': 100, 'reuse-after-failure-checks': 400, 'tool-runs:photospline-eval': 200,
+                     'fuzz:execs': 50000, 'fuzz:accepted': 3000, 'fuzz:rejected': 20000, 'fuzz:structured-mutations': 3000, 'max-fuzz:coverage-edges': 700}},
 )
 
 
